@@ -72,6 +72,81 @@ func ruleFirstEntryWins(c *core.Ctx) {
 				}
 			})
 		}
+		// every representable entry is recorded
+		for i, st := range stores {
+			st := st
+			c.Check(rule, "pdf."+name+"/recorded#"+itoa(i), "every entry whose fields are representable is recorded (a free entry of a newer section must shadow an older in-use entry, whatever its generation): the conditions on the entry's own fields in front of the store hold for all generations 0..65535, all offsets >= 0 and all object-stream numbers below 2^24", func(o *core.Ob) {
+				o.At(fn.Site(st.Stmt, "entry recorded"))
+				info := g.Info
+				// the entry's field variables: identifiers used in the stored literal
+				legal := core.Formula{Fn: fn}
+				fields := map[types.Object]bool{}
+				var lit *ast.CompositeLit
+				ast.Inspect(st.Value, func(m ast.Node) bool {
+					if cl, ok := m.(*ast.CompositeLit); ok && lit == nil {
+						lit = cl
+					}
+					return true
+				})
+				if lit == nil {
+					core.Undecided("stored value is not an entry literal")
+				}
+				for _, el := range lit.Elts {
+					kv, ok := el.(*ast.KeyValueExpr)
+					if !ok {
+						continue
+					}
+					key := core.ExprStr(kv.Key)
+					var ids []*ast.Ident
+					ast.Inspect(kv.Value, func(m ast.Node) bool {
+						if id, ok := m.(*ast.Ident); ok {
+							if v, ok := info.ObjectOf(id).(*types.Var); ok && !v.IsField() && v.Parent() != v.Pkg().Scope() {
+								ids = append(ids, id)
+							}
+						}
+						return true
+					})
+					for _, id := range ids {
+						obj := info.ObjectOf(id)
+						if fields[obj] {
+							continue
+						}
+						fields[obj] = true
+						lo, hi := int64(0), int64(-1)
+						switch key {
+						case "Generation":
+							hi = 65535
+						case "InStream":
+							hi = 1<<24 - 1
+						}
+						legal.Atoms = append(legal.Atoms, core.Atom{Expr: &ast.BinaryExpr{X: id, Op: token.GEQ, Y: intLit(lo)}})
+						if hi >= 0 {
+							legal.Atoms = append(legal.Atoms, core.Atom{Expr: &ast.BinaryExpr{X: id, Op: token.LEQ, Y: intLit(hi)}})
+						}
+					}
+				}
+				var atoms []core.Atom
+				for _, a := range g.DominatingAtoms(st.V) {
+					if a.Tag != nil {
+						continue
+					}
+					for obj := range fields {
+						if core.Mentions(info, a.Expr, obj) {
+							atoms = append(atoms, a)
+							break
+						}
+					}
+				}
+				o.Count(1 + len(atoms))
+				holds, counter, decided := c.Prog.Implies(legal, core.Formula{Fn: fn, Atoms: atoms})
+				if !decided {
+					core.Undecided("conditions in front of the store not decided: %s", counter)
+				}
+				if !holds {
+					o.Fail("%s: a representable entry is not recorded: %s (conditions: %s)", c.Prog.Pos(st.Stmt.Pos()), counter, c.Prog.FormulaString(core.Formula{Atoms: atoms}))
+				}
+			})
+		}
 		// consumption
 		c.Check(rule, "pdf."+name+"/consume", "every iteration over a table entry consumes the entry's bytes before it can continue with the next one (skipped entries stay aligned)", func(o *core.Ob) {
 			heads := loopHeads(g)
